@@ -178,3 +178,15 @@ package compile
 //@   ensures forallstr(k, implies(old(inmap(group_map, k)), inmap(group_map, k)))
 //@   callsite inmap(group_map, node_name(g))
 //@   loop 0 invariant inmap(group_map, node_name(g)) && forallstr(k, implies(old(inmap(group_map, k)), inmap(group_map, k)))
+
+// Typedef chains: BuildType and BuildBaseType are mutually recursive along a chain of typedefs. The typedef
+// being resolved (t18 = refType) is marked in c.typedefChain before the recursion and was not marked when this
+// activation started, so the typedefs of the activations on one call chain are pairwise distinct.
+//@ func (*Compiler).BuildType
+//@   assumed
+//@   modifies *
+//@   ensures result != nil
+//@ func (*Compiler).BuildBaseType
+//@   requires c != nil && typ != nil
+//@   modifies *
+//@   callsite @BuildType inmap(c.typedefChain, t18) && !old(inmap(c.typedefChain, t18))
